@@ -91,7 +91,7 @@ def cp_shape(rnd, w, signed=False, allow_overlap=False):
     while excl and not remaining(excl):
         excl = excl[:-1]
     if excl:
-        half = len(excl) // 2 if rnd.random() < 0.5 else len(excl)
+        half = rnd.choice([len(excl) // 2, len(excl), 0])          # also: every exclusion an illegal bin of its own
         ign = [{"name": "ig%d" % i, "ranges": rs} for i, rs in enumerate(excl[:half])]
         ill = [{"name": "il%d" % i, "ranges": rs} for i, rs in enumerate(excl[half:])]
         if ign:
@@ -201,8 +201,10 @@ def family_cross(tier, seed, n=None):
 def small_shape(rnd, cls, variant, atl=None, wts=None):
     """one of a few parameterised variants of a class: variant changes the bin set"""
     b0 = [[0, 1]] if variant % 2 == 0 else [[0, 2]]
+    # (variants 4/5: the same-named, same-sized array shifted to other values)
+    hi_r = [[4, 7]] if variant < 4 else ([[4, 5]] if variant == 4 else [[6, 7]])        # 4: [4,5]; 5 and 6: [6,7]
     cps = [{"name": "ca", "var": "a", "bins": [{"name": "lo", "kind": "bin", "ranges": b0},
-                                               {"name": "hi", "kind": "array", "n": 0 if variant < 2 else 2, "ranges": [[4, 7]]}]},
+                                               {"name": "hi", "kind": "array", "n": 0 if variant in (0, 1, 4, 5, 6) else 2, "ranges": hi_r}]},
            {"name": "cb", "var": "b", "abm": 64}]
     if variant == 3:
         cps[0]["ign"] = [{"name": "ig", "ranges": [[3, 3]]}]
@@ -223,6 +225,17 @@ def small_shape(rnd, cls, variant, atl=None, wts=None):
 
 def family_types(tier, seed, n=None, reports=False, options=True):
     out = []
+    # two instances of ONE class whose parameter shifts a same-named, same-sized bin array: separate types
+    rnd0 = random.Random(12)
+    for k_, (va, vb) in enumerate([(4, 6), (6, 4), (0, 1), (0, 4)]):
+        shapes = {"S0": small_shape(random.Random(12 + k_), "CGA", va), "S1": small_shape(random.Random(12 + k_), "CGA", vb)}
+        ops = [{"op": "new", "shape": "S0"}, {"op": "new", "shape": "S1"}, {"op": "new", "shape": "S0"}]
+        for v in (0, 4, 5, 6, 7, 2):
+            for i_ in (1, 2, 3):
+                ops.append({"op": "sample", "inst": i_, "vals": {"a": v, "b": v % 2}})
+        if reports:
+            ops.append({"op": "report"})
+        out.append({"id": "%s/shifted/%d" % ("rpt" if reports else "types", k_), "shapes": shapes, "ops": ops})
     n = n or (40 if tier == "quick" else 500)
     for t in range(n):
         rnd = random.Random((991 if t < n // 2 else 3000 + seed) * 100003 + t + (7 if reports else 0))
@@ -236,7 +249,7 @@ def family_types(tier, seed, n=None, reports=False, options=True):
             if options and rnd.random() < 0.5:
                 # PyUCIS' report builder ignores cross weights, so report families keep them at 1
                 wts = (rnd.choice([1, 2, 5]), rnd.choice([0, 1, 2]), 1 if reports else rnd.choice([1, 2]))
-            shapes["S%d" % i] = small_shape(rnd, cls, rnd.randrange(4), atl, wts)
+            shapes["S%d" % i] = small_shape(rnd, cls, rnd.choice([0, 1, 2, 3, 4, 5, 6, 4, 6]), atl, wts)
         ops = []
         ninst = 0
         order = []
